@@ -136,6 +136,16 @@ impl fmt::Display for Policy {
     }
 }
 
+impl Policy {
+    /// converts a parsed policy, refusing public keys that are not valid keys
+    pub(super) fn from_parsed(p: biscuit_parser::builder::Policy) -> Result<Self, error::Token> {
+        for query in &p.queries {
+            super::scope::check_parsed_scopes(&query.scopes)?;
+        }
+        Ok(p.into())
+    }
+}
+
 impl From<biscuit_parser::builder::Policy> for Policy {
     fn from(p: biscuit_parser::builder::Policy) -> Self {
         Policy {
@@ -152,10 +162,10 @@ impl TryFrom<&str> for Policy {
     type Error = error::Token;
 
     fn try_from(value: &str) -> Result<Self, Self::Error> {
-        Ok(biscuit_parser::parser::policy(value)
+        let (_, policy) = biscuit_parser::parser::policy(value)
             .finish()
-            .map(|(_, o)| o.into())
-            .map_err(biscuit_parser::error::LanguageError::from)?)
+            .map_err(biscuit_parser::error::LanguageError::from)?;
+        Policy::from_parsed(policy)
     }
 }
 
@@ -163,9 +173,9 @@ impl FromStr for Policy {
     type Err = error::Token;
 
     fn from_str(s: &str) -> Result<Self, Self::Err> {
-        Ok(biscuit_parser::parser::policy(s)
+        let (_, policy) = biscuit_parser::parser::policy(s)
             .finish()
-            .map(|(_, o)| o.into())
-            .map_err(biscuit_parser::error::LanguageError::from)?)
+            .map_err(biscuit_parser::error::LanguageError::from)?;
+        Policy::from_parsed(policy)
     }
 }
